@@ -166,8 +166,8 @@ pub fn run_case(log: &mut Log, lt: &str, rt: &str, a: &IBig, b: &IBig, src: &str
                 outs.push("T.r:u128:rv", guarded(|| or("T", u128_val(&x % v))));
                 outs.push("T.q:u128:rv", guarded(|| oq("T", eu(&(&x / v)))));
                 outs.push("T.qr:u128:rv", guarded(|| { let (q, r) = (&x).div_rem(v); oqr("T", eu(&q), u128_val(r)) }));
-                if v <= u64::MAX as u128 {
-                    outs.push("Mc", guarded(|| json!({"conv": "M", "mult": x.is_multiple_of_const(v)})));
+                if v <= dashu_int::DoubleWord::MAX as u128 {
+                    outs.push("Mc", guarded(|| json!({"conv": "M", "mult": x.is_multiple_of_const(v as dashu_int::DoubleWord)})));
                 }
             }
             if let Some(v) = small_mag(&ma) {
